@@ -17,6 +17,7 @@ import (
 	"encoding/json"
 	"fmt"
 	"math/rand"
+	"strings"
 	"testing"
 	"time"
 
@@ -42,7 +43,8 @@ type step struct {
 	Err bool   `json:"err"`
 	Res string `json:"res"`
 	ID  string `json:"id"`
-	Acc []struct {
+	Suite string `json:"suite"` // secure suite of the run: none | tls:<aead> | ecdhe:<aead>
+	Acc   []struct {
 		S    int    `json:"s"`
 		Side string `json:"side"`
 		ID   string `json:"id"`
@@ -109,29 +111,42 @@ func (w *world) start(s int) *verdict {
 	_ = se.dialer.a.SetSecureAeads(channel, []network.SecureAeadSuite{w.aead})
 	network.VerifAuthOnPeer(se.acceptor.a, se.pa)
 	network.VerifAuthOnPeer(se.dialer.a, se.pd) // sends SecureRequest
-	for i, hop := range []struct {
-		p *network.Peer
-		n *node
-	}{{se.pa, se.acceptor}, {se.pd, se.dialer}} {
-		pkt, err := next(hop.p)
-		if err != nil {
-			return &verdict{"handshake:driver", fmt.Sprintf("session %d key exchange message %d: %v", s, i, err), false}
-		}
-		if i == 0 { // the network records the SecureRequest
-			f := network.VerifPacketOf(pkt)
-			f.Payload = append([]byte(nil), f.Payload...)
-			se.secureReq = &f
-		}
-		network.VerifAuthOnPacket(hop.n.a, pkt, hop.p)
-		if hop.p.IsClosed() {
-			return &verdict{"handshake:driver", fmt.Sprintf("session %d: key exchange failed at message %d: %s", s, i, hop.p.CloseInfo()), false}
+	// message 0: SecureRequest at the acceptor; message 1: SecureResponse at the dialer
+	pkt0, err := next(se.pa)
+	if err != nil {
+		return &verdict{"handshake:driver", fmt.Sprintf("session %d: no SecureRequest: %v", s, err), false}
+	}
+	f0 := network.VerifPacketOf(pkt0) // the network records the SecureRequest
+	f0.Payload = append([]byte(nil), f0.Payload...)
+	se.secureReq = &f0
+	network.VerifAuthOnPacket(se.acceptor.a, pkt0, se.pa)
+	if se.pa.IsClosed() {
+		return &verdict{"handshake:driver", fmt.Sprintf("session %d: key exchange failed at the acceptor: %s", s, se.pa.CloseInfo()), false}
+	}
+	pkt1, err := next(se.pd)
+	if err != nil {
+		return &verdict{"handshake:driver", fmt.Sprintf("session %d: no SecureResponse: %v", s, err), false}
+	}
+	// with the tls suite the dialer runs the TLS client handshake inside this handler; the accepting side answers it
+	// when it reads next (below), so the handler runs beside the driver
+	hs := make(chan struct{})
+	go func() {
+		defer close(hs)
+		network.VerifAuthOnPacket(se.dialer.a, pkt1, se.pd)
+	}()
+	if w.suite != network.SecureSuiteTls {
+		<-hs
+		if se.pd.IsClosed() {
+			return &verdict{"handshake:driver", fmt.Sprintf("session %d: key exchange failed at the dialer: %s", s, se.pd.CloseInfo()), false}
 		}
 	}
+	defer func() { <-hs }()
 	// the dialer's genuine SignatureRequest is now in transit: the harness (the network) takes it
 	pkt, err := next(se.pa)
 	if err != nil {
-		return &verdict{"handshake:driver", fmt.Sprintf("session %d: no SignatureRequest: %v", s, err), false}
+		return &verdict{"handshake:driver", fmt.Sprintf("session %d: no SignatureRequest (suite %s): %v", s, w.suite, err), false}
 	}
+	<-hs // the dialer's handler has returned
 	f := network.VerifPacketOf(pkt)
 	var rq network.SignatureRequest
 	if _, err := codec.MP.UnmarshalFromBytes(f.Payload, &rq); err != nil || f.SubProtocol != network.VerifAuthSignatureRequest {
@@ -139,7 +154,10 @@ func (w *world) start(s int) *verdict {
 	}
 	se.sigReq = &rq
 	sd, sa := network.VerifPeerSessionSecret(se.pd), network.VerifPeerSessionSecret(se.pa)
-	if len(sd) == 0 || !bytes.Equal(sd, sa) {
+	if len(sd) == 0 || len(sa) == 0 {
+		return &verdict{"authenticator:session-secret-reused", fmt.Sprintf("session %d (secure suite %s): the key exchange left NO session secret (dialer %d bytes, acceptor %d bytes): both sides sign and verify the empty string, so a SignatureRequest recorded in any session is valid in every other one", s, w.suite, len(sd), len(sa)), true}
+	}
+	if !bytes.Equal(sd, sa) {
 		return &verdict{"handshake:secret-mismatch", fmt.Sprintf("session %d: the two ends derived different session secrets", s), false}
 	}
 	se.secret = sd
@@ -166,6 +184,9 @@ func (w *world) replayTranscript(t, from int) *verdict {
 	w.sess[t] = se
 	_, cb, _, _ := securechan.NewPipe(nil)
 	cb.Blocking, cb.BlockFor = true, 20*time.Second
+	if w.suite == network.SecureSuiteTls {
+		cb.BlockFor = 200 * time.Millisecond // nobody completes the TLS handshake on this connection
+	}
 	se.pa = network.VerifAuthNewPeer(cb, true, "")
 	network.VerifAuthOnPeer(se.acceptor.a, se.pa)
 	f := *rec.secureReq
@@ -176,7 +197,7 @@ func (w *world) replayTranscript(t, from int) *verdict {
 	}
 	se.secret = network.VerifPeerSessionSecret(se.pa)
 	if len(se.secret) == 0 {
-		return &verdict{"handshake:driver", "no session secret after the replayed SecureRequest", false}
+		return &verdict{"authenticator:session-secret-reused", fmt.Sprintf("connection %d (secure suite %s): no session secret after the replayed SecureRequest", t, w.suite), true}
 	}
 	for o, other := range w.sess {
 		if o != t && other.secret != nil && bytes.Equal(other.secret, se.secret) {
@@ -480,12 +501,20 @@ func runBehaviour(steps []step, rnd *rand.Rand) *verdict {
 	w.sess[1] = &session{dialer: w.nodes["a"], acceptor: w.nodes["b"]}
 	w.sess[2] = &session{dialer: w.nodes["m"], acceptor: w.nodes["b"]}
 	w.sess[3] = &session{dialer: w.nodes["b"], acceptor: w.nodes["b"]} // b dials its own listener
-	// plaintext channel (the realistic man in the middle) or the ECDHE channel with one of the AEAD suites
-	if rnd.Intn(2) == 0 {
-		w.suite, w.aead = network.SecureSuiteNone, network.SecureAeadSuiteChaCha20Poly1305
-	} else {
-		w.suite = network.SecureSuiteEcdhe
-		w.aead = []network.SecureAeadSuite{network.SecureAeadSuiteChaCha20Poly1305, network.SecureAeadSuiteAes128Gcm, network.SecureAeadSuiteAes256Gcm}[rnd.Intn(3)]
+	// the secure suite is a dimension of the spec: the nodes negotiate what the behaviour says
+	w.suite, w.aead = network.SecureSuiteNone, network.SecureAeadSuiteChaCha20Poly1305
+	if len(steps) > 0 {
+		parts := strings.SplitN(steps[0].Suite, ":", 2)
+		switch parts[0] {
+		case "tls":
+			w.suite = network.SecureSuiteTls
+		case "ecdhe":
+			w.suite = network.SecureSuiteEcdhe
+		}
+		if len(parts) == 2 {
+			w.aead = map[string]network.SecureAeadSuite{"chacha": network.SecureAeadSuiteChaCha20Poly1305,
+				"aes128": network.SecureAeadSuiteAes128Gcm, "aes256": network.SecureAeadSuiteAes256Gcm}[parts[1]]
+		}
 	}
 	defer func() {
 		for _, se := range w.sess {
